@@ -776,15 +776,37 @@ WS = ''.join(chr(c) for c in [9, 10, 11, 12, 13, 32, 0x85, 0xA0, 0x1680] + list(
 def _pat(p):
     if type(p) is Char:
         return p.c
+    if type(p) in (FnItem, Closure) or (type(p) is Ref and type(p.get()) in (FnItem, Closure)):
+        raise PredicatePattern(p)
     return sv(p)
+
+
+class PredicatePattern(Exception):
+    def __init__(self, p):
+        self.p = p
+
+
+def pred_holds(it, p, ch):
+    r = it.call_value(p, [Char(ch)])
+    return it.decide(r, 'pattern_pred')
+
+
+def with_pred(fn_str, fn_pred):
+    """model for a str method taking a Pattern: string/char patterns via fn_str, predicate patterns (fn items, closures) via fn_pred"""
+    def h(it, ci, a, d):
+        try:
+            return fn_str(it, ci, a, d)
+        except PredicatePattern as e:
+            return fn_pred(it, a, e.p)
+    return h
 
 
 @model('str::trim_matches')
 def _(it, ci, a, d):
-    p = a[1]
-    if type(p) is not Char:
-        raise Inconclusive('trim_matches with non-char pattern')
-    return sv(a[0]).strip(p.c)
+    p = _pat(a[1])
+    if len(p) != 1:
+        raise Inconclusive('trim_matches with a multi-char string pattern')
+    return sv(a[0]).strip(p)
 
 
 @model('str::trim_start_matches')
@@ -2038,12 +2060,7 @@ def _(it, ci, a, d):
 def _(it, ci, a, d):
     s = sv(a[0])
     p = a[1]
-    if type(p) is Char:
-        k = s.find(p.c)
-    elif type(deref(p)) in (str, StringV):
-        k = s.find(sv(p))
-    else:
-        raise Inconclusive('str::find with closure pattern')
+    k = s.find(_pat(p))
     return none() if k < 0 else some(len(s[:k].encode('utf-8')))
 
 
@@ -2261,3 +2278,37 @@ for _k, _m in [('panicking::assert_failed', 'assertion `left == right` failed'),
                ('str::slice_error_fail', 'str slice index error'), ('index::slice_index_order_fail', 'slice index starts after end'),
                ('index::slice_end_index_len_fail', 'range end index out of range'), ('index::slice_start_index_len_fail', 'range start index out of range')]:
     TABLE[_k] = _panic(_m)
+
+
+# ---- str methods with predicate patterns (char::is_whitespace, |c| ...)
+TABLE['str::starts_with'] = with_pred(TABLE['str::starts_with'], lambda it, a, p: bool(sv(a[0])) and pred_holds(it, p, sv(a[0])[0]))
+TABLE['str::ends_with'] = with_pred(TABLE['str::ends_with'], lambda it, a, p: bool(sv(a[0])) and pred_holds(it, p, sv(a[0])[-1]))
+TABLE['str::contains'] = with_pred(TABLE['str::contains'], lambda it, a, p: any(pred_holds(it, p, c) for c in sv(a[0])))
+
+
+def _trim_pred(it, a, p, left, right):
+    s = sv(a[0])
+    i, j = 0, len(s)
+    if left:
+        while i < j and pred_holds(it, p, s[i]):
+            i += 1
+    if right:
+        while j > i and pred_holds(it, p, s[j - 1]):
+            j -= 1
+    return s[i:j]
+
+
+TABLE['str::trim_matches'] = with_pred(TABLE['str::trim_matches'], lambda it, a, p: _trim_pred(it, a, p, True, True))
+TABLE['str::trim_start_matches'] = with_pred(TABLE['str::trim_start_matches'], lambda it, a, p: _trim_pred(it, a, p, True, False))
+TABLE['str::trim_end_matches'] = with_pred(TABLE['str::trim_end_matches'], lambda it, a, p: _trim_pred(it, a, p, False, True))
+
+
+def _find_pred(it, a, p):
+    s = sv(a[0])
+    for k, c in enumerate(s):
+        if pred_holds(it, p, c):
+            return some(len(s[:k].encode('utf-8')))
+    return none()
+
+
+TABLE['str::find'] = with_pred(TABLE['str::find'], _find_pred)
